@@ -18,6 +18,7 @@ TRANSFORMS = [
     "`debug_assert!(e);` and `assert!(e);` -> `assert(e);` (Verus spelling: the run-time check becomes the proof obligation that the panic is unreachable under the contract's precondition)",
     "items (struct/const/type): attributes dropped except that `#[derive(.. Clone, Copy ..)]` is re-emitted as `#[derive(Clone, Copy)]`, visibility normalised to `pub`; with option `pubfields` private struct fields are declared `pub` (a datatype with private fields is opaque to Verus specifications); with option `w64args` a const initialised by `T::w64be(..)`/`w64le(..)` with four literal limbs is emitted as an opaque constant (compile-time Montgomery conversion) together with a generated spec function `<NAME>_w64()` holding the integer those literals denote; with option `specinit` an associated const with an arithmetic initialiser is emitted opaque together with `<NAME>_init()` = the initialiser text as a spec function over mathematical integers and the declared axiom that the const equals it when in range (the initialiser's overflow check belongs to the compiler: a bad instantiation does not compile); with option `limbs`, a const initialised by `T::w64be(l3,l2,l1,l0)` / `T::w64le(l0,l1,l2,l3)` with four literal limbs is rewritten to the tuple-struct literal `GF255([l0,l1,l2,l3])` (w64be/w64le are proved in the same unit to build exactly that array)",
     "anonymous loop pattern: `for _ in <range>` -> `for vloop<k> in <range>` (k-th such loop of the function) so that a loop invariant can name the counter",
+    "only with option `nested`: the impl block is looked up inside the body of a metavariable-free `macro_rules!` definition (define_frost_core, define_lms_core: plain Rust text that every instantiating module expands verbatim); the names it takes from the instantiating module are declared in the unit",
     "only with option `lebytes` (this Verus cannot attach a specification to the std byte-order conversions, whose signatures use the const expression `[u8; size_of::<T>()]`): `<int>::from_le_bytes(` -> `<int>_from_le_bytes(`, `<int>::from_be_bytes(` -> `<int>_from_be_bytes(` (int in u16/u32/u64/u128), and the method calls `.to_le_bytes()` / `.to_be_bytes()` -> `.vto_le_bytes()` / `.vto_be_bytes()`; the twins are declared in contracts/spec/lebytes_decl.vrs with the std semantics as ASSUMED contracts (trusted: std)",
     "only with option `revloops=<T>` (this Verus has no specification for Rev<Range>): `for v in (a..b).rev() {` -> `let mut vrev<k>: T = b; while vrev<k> > a { vrev<k> = vrev<k> - 1; let v = vrev<k>;` (k-th such loop; a, b are the literal or identifier bounds as written; the loop body is unchanged; same iteration sequence b-1, b-2, .., a)",
 ]
@@ -278,9 +279,10 @@ class SliceError(Exception):
     pass
 
 
-def find_impl_blocks(src, header):
+def find_impl_blocks(src, header, anydepth=False):
     """Yield (body_start, body_end) char offsets of every `impl` block whose
-    header (text between `impl` and `{`) normalises to `header`."""
+    header (text between `impl` and `{`) normalises to `header`. With anydepth the block may sit inside other
+    braces (the body of a metavariable-free `macro_rules!` such as define_frost_core / define_lms_core)."""
     toks = tokenize(src)
     want = norm(header)
     res = []
@@ -290,7 +292,7 @@ def find_impl_blocks(src, header):
             depth += 1
         elif t.kind == 'op' and t.text in CLOSE:
             depth -= 1
-        elif t.kind == 'id' and t.text == 'impl' and depth == 0:
+        elif t.kind == 'id' and t.text == 'impl' and (depth == 0 or anydepth):
             j = i
             while not (toks[j].kind == 'op' and toks[j].text == '{'):
                 j += 1
